@@ -17,6 +17,15 @@ JSON_PALETTE = [
     "2031-07-13T05:46:+5Z", "2031-07-13T 5:46:45Z", "2031-07-13T05: 6:45Z", "2031-07-13T05:46:5\nZ", "2_31-07-13T05:46:45Z", "2031-07-13T05:46:4_Z",
     "2031-07-13T05:46:\t5Z", "2031- 7-13T05:46:45Z", "2031-07- 3T05:46:45Z", "+031-07-13T05:46:45Z", "2031-07-13T-5:46:45Z", "2031-07-13T05:46:45z",
     "2031-07-13t05:46:45Z", "2031-07-13T05:46:45\u200bZ", "2031/07/13T05:46:45Z", "2031-07-13T05.46.45Z", "2031-07-13T24:00:00Z", "2031-07-13T05:60:00Z",
+    # other ISO-8601 spellings of a UTC instant (none is the documented YYYY-MM-DDTHH:MM:SSZ form), several exactly 20 characters long
+    "2026-W01-4T00:00:00Z", "2026-01-01_00:00:00Z", "2026-01-01 00:00:00Z", "2026-01-01T00:00-05Z", "20260101T000000.000Z", "2026-001T00:00:00.0Z",
+    "2026-01-01T00:00:00+00:00", "2026-01-01T00:00:00+0000", "2026-01-01T00:00:00-00:00", "2026-01-01T00:00:00.000000Z", "2026-01-01T00:00Z",
+    "2026-01-01T00:00:00,0Z", "2026-01-01T00:00:00 Z", "2026-01-01T00:00:00ZZ", "2026-01-01T00:00:00UTC",
+    # integers at machine-word boundaries
+    2**31 - 1, 2**31, 2**32, 2**63 - 1, 2**63, 2**64 - 1, 10**19, -(2**63),
+    # key lists whose entries' length errors cancel out
+    [HK[:-1], HK2 + "a"], ["", HK + HK2], [HK[:32], HK2[:32], HK, HK + HK2],
+    {"pubkeys": [HK[:-1], HK2 + "a"], "threshold": 1}, {"pubkeys": [HK[:-2], HK2 + "ab"], "threshold": 2},
     HK, HK.upper(), "Ab" + HK[2:], HK[:-1] + "B", "eF" * 64, "ef" * 63 + "eF", "04aB", "AB", HK[:-1], HK + "a", HK[:-2], " " + HK, HK + "\n", "0x" + HK[2:], SIG, SIG[:-2], "ab", "abc", "zz",
     [], {}, [HK], [HK, HK], [HK, HK2], [HK.upper()], [1], [None], [[]], [{}], {"a": 1}, {"": None},
     {"pubkeys": [], "threshold": 1}, {"pubkeys": [HK], "threshold": 1}, {"pubkeys": [HK], "threshold": 0},
